@@ -249,9 +249,34 @@ def r1_table(ctx):
     # expanded; the tag comparators stay calls (they are recognised by their own tables)
     cmpfns = {n for n, b in ctx.facts.bodies.items() if b["kind"] == "fn" and b["locals"][0]["s"] == "bool" and b["arg_count"] == 2 and
               all(b["locals"][i]["s"].endswith("[u8]") for i in (1, 2))}
-    outs = ctx.px(cond, inline=lambda c, d: bool(c.get("res_local")) and c.get("res_path") not in cmpfns, key="all-local", max_depth=6)
+    from .. import models as _MM
+    # ... and so does the list tokeniser (`next` of the crate's own list iterator: C04.R5 is its rule), also when it is called
+    # directly rather than through a `for` loop
+    keep = set(cmpfns)
+    try:
+        from . import etaglist as _EL0
+        keep.add(_EL0.find_list(ctx)[1])
+    except Exception:
+        pass
+    outs = ctx.px(cond, inline=lambda c, d: bool(c.get("res_local")) and c.get("res_path") not in keep, key="all-local", max_depth=6,
+                  extra_models=_MM.ANY_ALL)
     summ = loop_summaries(ctx, outs, "C04.R3")
     ctx._c04_summ = summ
+    # a loop that only drains a list iterator (`while items.next().is_some() {}` after a short-circuiting search) carries the
+    # iterator itself: which header's list it is is read off the value the iterator had when that loop was entered
+    lv_hdr = {}
+    try:
+        from . import etaglist as _EL
+        list_flag = _EL.find_list(ctx)[3]
+    except Exception:
+        list_flag = None
+    for o_ in outs:
+        for k4, init in o_.state.extra.get("loop_entry_values", {}).items():
+            lv_ = ("loopvar", k4[0], k4[1], k4[2], 0) + ((k4[3],) if len(k4) == 4 else ())
+            s_ = repr(init)
+            hs_ = [hn for hn in ("IF_NONE_MATCH", "IF_MATCH") if hn in s_]
+            if len(hs_) == 1:
+                lv_hdr.setdefault(lv_, set()).add(hs_[0])
     ctx.floor("C04.R3", len(summ), 2, what="tag-list loops with a recognised monotone flag")
     # R2: comparator kinds
     for lv, s in summ.items():
@@ -358,12 +383,24 @@ def r1_table(ctx):
                         for item in v[2]:
                             match = match or bool(_cmp_lookup(tab, item, et[1], s["cmpkind"]))
                     return s["flipped"] if match else s["init"]
+                if len(lv_hdr.get(t, ())) == 1:
+                    return ("list-iterator", next(iter(lv_hdr[t])))      # the drained iterator itself (only handed to `next`)
                 return NotImplemented
+            if k == "field" and isinstance(t[1], tuple) and t[1][0] == "loopvar" and len(lv_hdr.get(t[1], ())) == 1 and t[2] == list_flag:
+                return int(hv[next(iter(lv_hdr[t[1]]))][3])
             if k == "field" and isinstance(t[1], tuple) and t[1][0] == "havoc":
                 s = repr(t[1])
                 for hn in ("IF_NONE_MATCH", "IF_MATCH"):
                     if hn in s:
                         return int(hv[hn][3])
+                # the iterator as the drain loop left it: havoc(next(&<loop-carried iterator>))
+                subs = set()
+                _subterms(t[1], subs)
+                hs = set()
+                for lv_ in subs:
+                    hs |= lv_hdr.get(lv_, set())
+                if len(hs) == 1 and t[2] == list_flag:
+                    return int(hv[next(iter(hs))][3])
                 return NotImplemented
             if k == "from":
                 return ev.ev(t[1])
